@@ -95,6 +95,7 @@ DEFAULT_CFG = {
     "write_disk": False, "write_keepalive": False, "write_dir": "/data/bgp/",
     "rotate_bytes": None,
     "handler": "rec",
+    "md5": None, "sockopt_errno": None,
 }
 
 ST_NAMES = {1: "IDLE", 2: "CONNECT", 3: "ACTIVE", 4: "OPENSENT", 5: "OPENCONFIRM", 6: "ESTABLISHED"}
@@ -302,7 +303,7 @@ class World(object):
         so("remote_as", c["remote_as"], group="bgp")
         so("local_addr", c["local_addr"], group="bgp")
         so("remote_addr", c["remote_addr"], group="bgp")
-        so("md5", None, group="bgp")
+        so("md5", c.get("md5"), group="bgp")
         so("afi_safi", list(c["afi_safi"]), group="bgp")
         so("rib", c["rib"], group="bgp")
         for k in ("four_bytes_as", "route_refresh", "cisco_route_refresh", "enhanced_route_refresh",
